@@ -452,6 +452,7 @@ fn run_c12(ctx: &mut Ctx) -> Verdict {
     }
     let want: BTreeSet<MQuad> = expressible.iter().map(norm_quad).collect();
     let compound_mode = fmt.dir == Dir::Compound;
+    let i18n_mode = fmt.dir == Dir::I18n;
     let classify = |want: &BTreeSet<MQuad>, got: &BTreeSet<MQuad>| -> Option<&'static str> {
         // known finding (json-ld-core 0.15.1 creates the blank node of a compound literal but
         // none of its rdf:value / rdf:direction / rdf:language triples): what the reader can
@@ -459,6 +460,34 @@ fn run_c12(ctx: &mut Ctx) -> Verdict {
         let (w1, folded) = if compound_mode { fold_compound_literals(want) } else { (want.clone(), false) };
         if folded && isomorphic(&w1, got).is_yes() {
             return Some("compound_literal_triples_lost");
+        }
+        // known finding (json-ld-core 0.15.1 `fn i18n`): a direction without language is read
+        // back as i18n#rtl instead of i18n#_rtl
+        if i18n_mode {
+            const NS: &str = "https://www.w3.org/ns/i18n#";
+            let mut changed = false;
+            let w3: BTreeSet<MQuad> = want
+                .iter()
+                .map(|q| {
+                    let mut q = q.clone();
+                    if let MTerm::Lit(_, dt) = &mut q.0[2] {
+                        if dt == &format!("{NS}_ltr") || dt == &format!("{NS}_rtl") {
+                            *dt = dt.replace("#_", "#");
+                            changed = true;
+                        }
+                    }
+                    q
+                })
+                .collect();
+            if changed {
+                let ty = MTerm::Iri(format!("{RDF}type"));
+                let list = MTerm::Iri(format!("{RDF}List"));
+                let w4: BTreeSet<MQuad> =
+                    w3.iter().filter(|q| !(q.0[0].is_bnode() && q.0[1] == ty && q.0[2] == list)).cloned().collect();
+                if isomorphic(&w3, got).is_yes() || isomorphic(&w4, got).is_yes() {
+                    return Some("i18n_direction_without_language");
+                }
+            }
         }
         // is the only difference that `_:l rdf:type rdf:List` quads of compacted lists are gone?
         let ty = MTerm::Iri(format!("{RDF}type"));
